@@ -285,13 +285,13 @@ def exEnv : Env := { src := fun i => 100 + i, cls := fun i _ => if i % 2 = 0 the
 
 /-- a schedule for range [2, 7), batch 2, 2 fetchers, 1 matcher: short reads, an error, interleaving -/
 def exOps : List Op :=
-  [.hand 0, .hand 1, .err 0, .resp 1 1, .resp 0 2, .take 0, .hand 0, .resp 1 1, .proc 0, .resp 0 1, .close,
-   .take 0, .proc 0, .take 0, .proc 0, .take 0, .proc 0, .take 0, .proc 0]
+  [.hand 0, .hand 1, .err 0, .resp 1 1, .resp 0 2, .take 0 0, .hand 0, .resp 1 1, .proc 0, .resp 0 1, .close,
+   .take 0 1, .proc 0, .take 0 0, .proc 0, .take 0 0, .proc 0, .take 0 0, .proc 0]
 
 example : exOps.all Op.inContract = true := by decide
 example : quiescent (run exEnv (init 2 7 2 2 1 false) exOps) = true := by decide
 example : (run exEnv (init 2 7 2 2 1 false) exOps).delivered.map Prod.fst = [4, 2, 3, 5, 6] := by decide
-example : (run exEnv (init 2 7 2 2 1 false) exOps).called = [(false, (4, 104)), (false, (2, 102)), (true, (3, 103)), (false, (6, 106))] := by decide
+example : (run exEnv (init 2 7 2 2 1 false) exOps).called = [(false, (4, 104)), (true, (3, 103)), (false, (2, 102)), (false, (6, 106))] := by decide
 example : progressCount exEnv (init 2 7 2 2 1 false) exOps = 18 ∧ 18 ≤ 4 * (7 - 2) + 1 := by decide
 /-- `Stop` in the middle: the pending batch is finished, the rest of the range is not started, nothing twice -/
 example : (run exEnv (init 0 9 3 1 1 false) [.hand 0, .stop, .resp 0 2, .close, .resp 0 1]).delivered.map Prod.fst = [0, 1, 2]
